@@ -331,7 +331,9 @@ theorem C14_runCambridge (P : Params) :
     (fun b o => UnitPool ((counts[2 * b]?).getD 0 + (counts[2 * b + 1]?).getD 0) o) (List.range P.nb) ?_) ?_
   · intro b _
     refine ensures_bind _ _ (fun _ => True) _ (ensures_any _) ?_
-    intro ivs _
+    intro ownIv _
+    refine ensures_bind _ _ (fun _ => True) _ (ensures_any _) ?_
+    intro oppIv _
     refine ensures_bind _ _ (fun _ => True) _ (ensures_any _) ?_
     intro comb _
     refine ensures_bind _ _ _ _ (expectTypes_spec _ ((counts[2 * b]?).getD 0) _) ?_
